@@ -282,6 +282,7 @@ CLAIMED["C05"] = {
             "the axis of the confusion matrix that is filled from the prediction (read off map_prediction_to_idx, its call and the indexing of the increment) is the one the binary precision fixes, the binary recall fixes the other, and split_one_vs_all takes the false positives from the prediction's line - binary precision and recall of the pinned tree fix the wrong axes, i.e. are exchanged (two known findings with the failing input); "
             "every (prediction, truth) pair adds exactly one to one cell of a square matrix over the class list, both indices looked up in one class map; accuracy is trace over total; split_one_vs_one enumerates the pairs i < j (it included the diagonal: repaired). "
             "every forwarding impl of ToConfusionMatrix keeps the roles - its receiver stays the prediction, its argument the ground truth (the impl for an array against a dataset exchanges them: known finding with the failing input); "
+            "the numerator of the MCC uses row sums and column sums alike (or neither); an accumulator that a loop of the metric code resets at the end of its body is reset on every path to the next iteration (no `continue` skips it); "
             "median_absolute_error reads the middle position(s) of a *fully sorted* error sequence (a selection around one position does not order its neighbours); no sum or difference in the metric code has the same operand on both sides (a trapezoid uses both end points); the class list of a confusion matrix over a dataset is the key set of a label-count cache that starts empty (shared with C02). "
             "Not decided: the numerical definitions themselves - MCC, F-beta, ROC / AUC and its treatment of ties and of the first threshold, log-loss, the regression formulas beyond their degrees, silhouette, Pearson, permutation invariance.",
     "design_ref": "DESIGN.md section 4, C05",
@@ -300,6 +301,7 @@ CLAIMED["C06"] = {
             "the linkage runs on the -ln transform (floored, ln of the similarity only above the floor) of the kernel's upper triangle, with kernel.size() and the configured linkage method; "
             "all six Kernel accessors dispatch to the Inner method of their own name in both arms with the argument passed on, the three to_upper_triangle impls keep col > row, Kernel::new / view / to_owned keep the variant, the builder of the variant, the configured neighbour count and the configured method; "
             "Clone impls, builder methods, accessors and constructors of linfa-kernel and linfa-hierarchical carry what was configured; no generic-float value is narrowed to f32 and stored. "
+            "The requested number of clusters is not subtracted from the number of samples in unsigned arithmetic without a guard (more clusters than samples may be requested); a running position that is advanced by an amount depending on the loop index is advanced on every path through the loop body. "
             "The polynomial degree is used as given (not converted to an integer for an integer power); the -ln transform is not clamped; builder methods of the clustering and kernel parameters that rebuild the set carry every field and store their arguments unchanged. "
             "Not decided: numerical equality of entries, symmetry up to rounding, positive semidefiniteness, which points the index returns, agreement of dense and sparse products and sums, the linkage algorithm itself (kodama), ties.",
     "design_ref": "DESIGN.md section 4, C06",
@@ -315,6 +317,7 @@ CLAIMED["C11"] = {
             "the descents stop on gap < tol*||y||^2 and return the gap that was compared; "
             "OLS under fit_intercept appends a ones column along the feature axis, publishes its coefficient (the last one) as the intercept and removes it from the parameters, publishes a zero intercept otherwise; "
             "Clone impls, builder methods, accessors and constructors of linfa-elasticnet and linfa-linear carry what was configured, no generic-float value is narrowed to f32 and stored, raw buffers are used by position only behind a layout test. "
+            "The coordinate sweeps run over all features (a filtered list, never a prefix or a stride) and a whole-matrix term is added to the residual only after it was reset to the targets; with the axis roles of the parameters of the duality gaps declared (samples, features, tasks), products contract axes of one role, sums combine equally oriented arrays, and the axis-wise reductions of one function remove the same role from equally shaped arrays (a dimension-type inference: axisrole.py). "
             "Zero tests that decide whether a column is skipped or the residual is updated are exact comparisons - an absolute tolerance on a quantity that scales with the data makes the fit depend on the unit of the features (they were abs_diff tests: repaired). A residual update that is skipped under a zero test vanishes whenever the tested value is zero (it is a product with it: the residual never goes stale); no filtered list of column positions is zipped with an unfiltered walk over the columns; `Default::default()` and `new()` of the estimators build the same value. "
             "Not decided: optimality itself (KKT conditions, orthogonality of the OLS residual), non-negativity of the gap, convergence within the iteration budget.",
     "design_ref": "DESIGN.md section 4, C11",
@@ -331,6 +334,7 @@ CLAIMED["C15"] = {
             "mini-batch k-means divides the shift by the cumulative per-cluster count, incremented by one before the division, the counts handed to the update are the model's own cluster_count, and Ok / NotConverged follow `shift < tolerance`; "
             "FTRL takes the weights before z and n are written, z gains the gradient and loses sigma*weights, n gains the squared gradient, sigma is computed before the update, a weight is exactly zero when |z| <= l1 (non-strict), and fit_with continues from the given model; "
             "hand-written Clone impls and builder methods of the two crates carry every field, no generic-float value is narrowed to f32 and stored. "
+            "The per-coordinate learning-rate term of FTRL is 0, not 0/0, for a coordinate without any gradient so far (the formula evaluated over {zero, positive} at n = 0, g = 0); the fused (Zip) form of the FTRL update accumulates z and n like the statement form; raw memory-order buffers of linfa-bayes / linfa-ftrl are used by position only behind a layout test. "
             "The cluster counts that KMeans::fit stores are the counted memberships, unadjusted (fit_with continues a running mean from them); the variance boost is subtracted either from every class of the carried model or not at all - never per class of the current batch; a struct literal that copies from a struct with a like-named field takes the like-named field (Ftrl::new: l1 from l1). "
             "Not decided: the statistics themselves (pooled mean / variance algebra, log-probabilities, the learning-rate formula), equality of batch and incremental results as numbers, posterior arg-max (ties are decided under C20).",
     "design_ref": "DESIGN.md section 4, C15",
@@ -348,6 +352,7 @@ CLAIMED["C17"] = {
             "the sparse row pairs each count with an enumerate() column taken before the zero filter, the zero filter drops exactly the zero counts, and the document frequency of the same column is incremented; "
             "each tf-idf entry is the count times the idf indexed by its own column, computed from (number of transformed documents, that column's document frequency) in this order; "
             "hand-written Clone impls and builder methods of the vectorisers carry every field. "
+            "Every constructor of a fitted count vectoriser derives the column -> word list from the word -> column map it stores (hashmap_to_vocabulary); every longer n-gram extends the previous one (a buffer carried across the iterations); the document frequency handed to compute_idf is counted over the transformed documents, not read from what the fitted vectoriser remembers. "
             "The lower end of the document-frequency window is not a truncated (floor) conversion of the relative minimum into a count (it was: repaired - the window now compares relative frequencies). Builder methods of the vectorisers store their arguments unchanged (no case folding, trimming or filtering of stop words or expressions); check_ref compiles the tokeniser expression that is configured now (the write of the compiled form is not skipped because one is already there). "
             "Not decided: the recount itself - what the regex or tokenizer function matches, the float-to-count arithmetic of the frequency window, the three idf formulas, which entries a feature cap keeps (the sort key's reproducibility is decided under C20), the order of the vocabulary.",
     "design_ref": "DESIGN.md section 4, C17",
